@@ -22,7 +22,9 @@ CONSTANTS Bases,     \* e.g. {"B1", "B2"}
 
 AllForms == {"self", "newtype", "alias", "salias", "final", "classvar",
              "fref",                      \* ForwardRef to the base class
-             "nref", "aref", "sref"}      \* ForwardRefs naming the NewType / alias / string alias
+             "nref", "aref", "sref",      \* ForwardRefs naming the NewType / alias / string alias
+             \* wrappers of wrappers: NewType over the value alias, over the NewType, over the string alias; Final[NewType]
+             "nt_al", "nt_nt", "nt_sal", "fin_nt"}
 
 Keys  == [b : Bases, f : Forms]
 NoKey == [b |-> "-", f |-> "-"]
@@ -32,12 +34,13 @@ IsRef(k) == k.f \in {"fref", "nref", "aref", "sref"}
 
 \* inspection.unwrap: NewType / TypeAliasType(value) / Final / ClassVar peel to the base;
 \* a string-valued alias becomes the ForwardRef to its body; everything else is itself.
-Unwrap(k) == CASE k.f \in {"newtype", "alias", "final", "classvar"} -> K(k.b, "self")
-               [] k.f = "salias" -> K(k.b, "fref")
+Unwrap(k) == CASE k.f \in {"newtype", "alias", "final", "classvar", "nt_al", "nt_nt", "fin_nt"} -> K(k.b, "self")
+               [] k.f \in {"salias", "nt_sal"} -> K(k.b, "fref")
                [] OTHER -> k
 
 \* refs.forwardref(key): the forward reference *naming the key itself*.  For Final[..] and
-\* ClassVar[..] that is ForwardRef('Final'|'ClassVar', module='typing'), outside any family.
+\* ClassVar[..] that is ForwardRef('Final'|'ClassVar', module='typing'), outside any family; the references naming
+\* the wrappers of wrappers are not keys of the family either.
 RefNaming(k) == CASE k.f = "self"    -> K(k.b, "fref")
                   [] k.f = "newtype" -> K(k.b, "nref")
                   [] k.f = "alias"   -> K(k.b, "aref")
